@@ -14,7 +14,7 @@ from vf import env  # noqa
 FAMILIES = ["random", "newest-unrecoverable", "two-recoverable", "evidence-then-more", "random", "replay",
             "down", "all-newest", "newest-unrecoverable", "evidence-then-more", "two-recoverable", "random",
             "all-oldest", "replay", "evidence-then-more", "update-vs-newer", "held-modify", "update-vs-newer",
-            "held-modify"]
+            "held-modify", "thin-newest-flaky", "newest-unrecoverable", "thin-newest-flaky"]
 
 
 def run(ck):
@@ -57,7 +57,8 @@ def run(ck):
                      "read-extended-search-on-newer-evidence", "read-returned-older-than-newest-published",
                      "read-returned-newest", "publish-ok", "exact-schedule", "free-schedule",
                      "server-answered-from-older-snapshot", "update-ok",
-                     "held-version-still-recoverable-next-to-a-newer-one", "held-modify-result-derives-from-newest")
+                     "held-version-still-recoverable-next-to-a-newer-one", "held-modify-result-derives-from-newest",
+                     "repair-publish-judged", "repair-forced-ok", "retried-read-judged-on-its-last-survey")
 
 
 def gen_params(rng):
@@ -66,7 +67,13 @@ def gen_params(rng):
     nservers = rng.choice([3, 4, 5, 6, 8, 10, 12, max(3, n), max(3, n + 2), max(3, 2 * k + 2)])
     nver = rng.choice([1, 2, 3, 3, 4, 5, 6])
     sizes = [rng.randint(8, 400) for _ in range(nver)]
-    return dict(fmt=fmt, k=k, n=n, nservers=nservers, segsize=rng.choice([30, 64, 128, 1000]), sizes=sizes)
+    segsize = rng.choice([30, 64, 128, 1000])
+    if rng.random() < .22:
+        # shares larger than the 4000 bytes a survey caches: a download then needs further requests
+        nver = rng.choice([2, 2, 3])
+        sizes = [rng.randint(4300 * k, 5200 * k) for _ in range(nver)]
+        segsize = rng.choice([1000, 4096])
+    return dict(fmt=fmt, k=k, n=n, nservers=nservers, segsize=segsize, sizes=sizes)
 
 
 class History(object):
@@ -146,11 +153,29 @@ class History(object):
                 s |= set(self.snaps[j].get(idx, {}).keys())
             return s
 
-        if fam == "held-modify":
+        self.flaky = []
+        if fam == "thin-newest-flaky" and h == 1:
+            fam = "all-newest"
+        if fam == "thin-newest-flaky":
+            # the newest version recoverable but thin (k or k+1 distinct shares), an older one with all the other
+            # shares; every server of the newest version fails exactly one request right after the survey
+            rng.shuffle(holders)
+            new_on = []
+            want = rng.choice([k, k, k + 1])
+            for idx in holders:
+                if len(shares_of(new_on)) < want:
+                    new_on.append(idx)
+            old = rng.randrange(newest)
+            for idx in holders:
+                states[idx] = ("v", newest) if idx in new_on else ("v", old)
+            self.flaky = list(new_on) if rng.random() < .8 else new_on[:max(1, len(new_on) - 1)]
+        elif fam == "held-modify":
             fam = rng.choice(["all-newest", "all-newest", "random", "two-recoverable"]) if h > 1 else "all-newest"
         if fam == "update-vs-newer" and h == 1:
             fam = "all-newest"
-        if fam == "update-vs-newer":
+        if fam == "thin-newest-flaky":
+            pass
+        elif fam == "update-vs-newer":
             # an older recoverable version, the newest one below k distinct shares, and -- so that an in-place update
             # of the older version has something to patch for every share number it will write -- a copy of the older
             # version's share for each share number that only exists in the newest version
@@ -279,6 +304,9 @@ class History(object):
                     vs.add_fault("raise", method="slot_readv")
         if plan:
             M.install_lying_hook(g, self.si, plan, lambda: self.ck.hit("server-answered-from-older-snapshot"))
+        for idx in getattr(self, "flaky", []):
+            if g.servers[idx].connected:
+                g.servers[idx].add_fault("raise", method="slot_readv", nth=2)     # the request after the survey query
         import os
         for (idx, sh), (j, owner) in sorted(getattr(self, "extras", {}).items()):
             vs = g.servers[idx]
@@ -297,7 +325,7 @@ class History(object):
         states = self.compose(fam)
         g.sched.settle()          # nothing of an earlier operation may still be in flight
         self.install(states)
-        exact = rng.random() < .75 or fam0 in ("update-vs-newer", "held-modify")
+        exact = rng.random() < .75 or fam0 in ("update-vs-newer", "held-modify", "thin-newest-flaky")
         if exact:
             g.sched.chooser = M.ev_first_chooser(self.sched_rng)
             ck.hit("exact-schedule")
@@ -311,12 +339,19 @@ class History(object):
             ops = ["update", "read2"] if self.p["fmt"] == "MDMF" else ["write", "read2"]
         elif fam0 == "held-modify":
             ops = ["held-modify"]
+        elif fam0 == "thin-newest-flaky":
+            ops = ["dbv"]
+        elif fam0 == "newest-unrecoverable" and rng.random() < .5:
+            ops = [rng.choice(["read2", "dbv"]), rng.choice(["repair-forced", "repair-forced", "repair", "car"])]
+        elif rng.random() < .12:
+            ops = ops + [rng.choice(["repair", "repair-forced", "car"])]
         elif self.p["fmt"] == "MDMF" and rng.random() < .2:
             ops = ops + ["update"]
         desc = dict(k=self.p["k"], n=self.p["n"], fmt=self.p["fmt"], nservers=self.p["nservers"],
                     history_seqnums=[v[0] for v in self.vid], family=fam, exact_schedule=exact,
                     states={"s%02d" % i_: list(s) for i_, s in sorted(states.items())},
                     extra_shares={"s%02d/sh%d" % k_: v[0] for k_, v in sorted(self.extras.items())},
+                    fail_one_request_after_survey=sorted(self.flaky),
                     permuted_order=self.order)
         nontrivial = any(s != ("v", len(self.snaps) - 1) for idx, s in states.items() if idx in self.holders)
         wrote = None
@@ -327,6 +362,8 @@ class History(object):
                 wrote = self.op_update(desc, exact, wrote)
             elif op == "held-modify":
                 self.op_held_modify(desc, exact)
+            elif op in ("repair", "repair-forced", "car"):
+                wrote = self.op_repair(desc, exact, wrote, op)
             else:
                 self.op_read(op, desc, exact, wrote)
             g.sched.settle()      # let late answers / straggling writes of this operation land before the next one
@@ -364,6 +401,7 @@ class History(object):
         node = c2.create_node_from_uri(self.ro_uri if self.rng.random() < .5 else self.rw_uri)
         n0 = len(g.calls)
         data = None
+        retried_exact = False
         if op == "read2":
             st, smap = g.wait(node.get_servermap(MODE_READ), horizon=4 * 3600.0)
             if st != "ok":
@@ -391,9 +429,44 @@ class History(object):
             per_server = {}
             for r in recs:
                 per_server.setdefault(r["server"], []).append(r)
+            retried_exact = False
             if any(len(v) > 1 for v in per_server.values()):
-                ck.skip("read-retried-with-a-second-survey")
-                return
+                # the read surveyed more than once (retry after a failed retrieve): its LAST survey decides.  Under the
+                # exact schedule the answers that survey processed are those delivered before the next request of
+                # another shape (the retry's first block read) was sent -- if there is such a request.
+                reqs = [r for r in g.calls[n0:] if r["method"] == "slot_readv" and r["args"][0] == self.si]
+                shape = lambda r: bool(r["args"][2]) and r["args"][2][0][0] == 0 and r["args"][2][0][1] >= 1000  # noqa
+                surveys = [r for r in reqs if shape(r)]
+                last, seen_srv = [], set()
+                for r in surveys:                      # a survey asks each server once: a repeat starts the next one
+                    if r["server"] in seen_srv:
+                        last, seen_srv = [], set()
+                    seen_srv.add(r["server"])
+                    last.append(r)
+                first_n = min(r["n"] for r in last)
+                # reads of a share's encrypted private key belong to a MODE_WRITE survey, not to the retrieve
+                privkey_reads = set()
+                for r in surveys:
+                    if r["state"] == "answered" and isinstance(r["result"], dict):
+                        for shnum, vecs in r["result"].items():
+                            v = M.ShareView(vecs[0]) if vecs else None
+                            if v is not None and v.fmt is not None:
+                                s_, e_ = v.regions()["enc_privkey"]
+                                privkey_reads.add((r["server"], shnum, s_, e_ - s_))
+
+                def is_privkey_read(r):
+                    return any((r["server"], sh, o, l) in privkey_reads
+                               for sh in (r["args"][1] or []) for (o, l) in r["args"][2])
+                later = [r["t_call"] for r in reqs if not shape(r) and r["n"] > first_n and not is_privkey_read(r)]
+                if not exact or not later or st != "ok":
+                    ck.skip("read-retried-with-a-second-survey")
+                    return
+                t_b = min(later)
+                recs = sorted([r for r in last if r["state"] == "answered" and isinstance(r["result"], dict)
+                               and r.get("t_rsp", 1e18) <= t_b], key=lambda r: r["t_rsp"])
+                queried = set(r["server"] for r in last)
+                retried_exact = True
+                ck.hit("retried-read-judged-on-its-last-survey")
         # what content did the read deliver -> which published version (ground truth)
         j = None
         if data is not None:
@@ -430,7 +503,7 @@ class History(object):
 
         ck.mon("read-returns-best-located")
         ck.mon("read-keeps-searching-on-newer-evidence")
-        if exact and op == "read2":
+        if exact and (op == "read2" or (op == "dbv" and retried_exact)):
             why, best, newer = verdict(recs)
         else:
             # free schedule (or one-step read): the reader processed some delivery-order prefix of the answers
@@ -482,7 +555,7 @@ class History(object):
         st, res = g.wait(node.overwrite(MutableData(new)), horizon=4 * 3600.0)
         return self.judge_publish(n0, st, res, desc, exact, wrote, new, "overwrite")
 
-    def judge_publish(self, n0, st, res, desc, exact, wrote, new, what):
+    def judge_publish(self, n0, st, res, desc, exact, wrote, new, what, may_not_write=False):
         """Oracle (a) for one publishing operation whose wire records start at n0; returns the new `wrote`."""
         ck, g, M = self.ck, self.g, self.M
         window = g.calls[n0:]
@@ -498,6 +571,9 @@ class History(object):
             return (max(tried), new) if tried else wrote
         ck.hit("publish-ok")
         if not writes:
+            if may_not_write:
+                ck.hit(what + "-did-not-publish")
+                return wrote
             ck.violation("publish-succeeded-without-writing", what + "() succeeded but no write request was sent",
                          dict(desc))
             return wrote
@@ -535,6 +611,33 @@ class History(object):
         return (max(written), new) if written else wrote
 
 
+
+    # ------------------------------------------------------------ the publish done by a repair
+    def op_repair(self, desc, exact, wrote, how):
+        """repair(check_results, force) / check_and_repair by a fresh client; oracle (a) on what it publishes.
+        Always the last operation on a composition (it republishes an existing content under a new number)."""
+        from allmydata.monitor import Monitor
+        ck, g, p = self.ck, self.g, self.p
+        c2 = g.make_client(k=p["k"], happy=1, n=p["n"], mutable_format=p["fmt"])
+        node = c2.create_node_from_uri(self.rw_uri)
+        if how == "car":
+            n0 = len(g.calls)
+            st, res = g.wait(node.check_and_repair(Monitor(), verify=False), horizon=4 * 3600.0)
+        else:
+            st, cr = g.wait(node.check(Monitor(), verify=False), horizon=4 * 3600.0)
+            if st != "ok":
+                ck.hit("repair-check-" + st)
+                return wrote
+            g.sched.settle()
+            n0 = len(g.calls)
+            st, res = g.wait(node.repair(cr, force=(how == "repair-forced")), horizon=4 * 3600.0)
+        ck.hit(how + "-" + st)
+        if st == "err":
+            ck.hit(how + "-err:" + res.type.__name__)
+        r = self.judge_publish(n0, st, res, desc, exact, wrote, b"", how, may_not_write=True)
+        if r is not wrote and r is not None and exact:
+            ck.hit("repair-publish-judged")
+        return wrote
 
     # ------------------------------------------------------------ MDMF in-place update
     def op_update(self, desc, exact, wrote):
